@@ -42,8 +42,14 @@ mod proofs {
         assert!(logic::c01_parse_storage(&inp).is_ok());
     }
 
+    // the description text path (status 7) is statically reachable: regex_automata crashes kani-compiler, so the two
+    // regex entry points are stubbed (they are not reached dynamically for status 3..6)
+    fn stub_regex_new(_re: &str) -> Result<regex::Regex, regex::Error> { Err(regex::Error::Syntax(String::new())) }
+    fn stub_replace_all<'h, R: regex::Replacer>(_r: &regex::Regex, h: &'h str, _rep: R) -> std::borrow::Cow<'h, str> { std::borrow::Cow::Borrowed(h) }
     #[kani::proof]
     #[kani::unwind(12)]
+    #[kani::stub(regex::Regex::new, stub_regex_new)]
+    #[kani::stub(regex::Regex::replace_all, stub_replace_all)]
     fn k_c03_log_info() {
         let inp: [u8; 12] = kani::any();
         assert!(logic::c03_log_info(&inp).is_ok());
